@@ -81,8 +81,9 @@ StagedAllFlushedOnce ==
 IndepOf(L1, L2) == \A o \in Ords : PerFile(arr, res[L1].out, o) = PerFile(arr, res[L2].out, o)
 Indep == \A L1, L2 \in Limits : (res[L1].status = "ok" /\ res[L2].status = "ok") => IndepOf(L1, L2)
 \* ... and is the composite-key order (= what an unbounded stager flushes)
-FlushSorted == \A L \in Limits : res[L].status = "ok" =>
-                   \A o \in Ords : PerFile(arr, res[L].out, o) = PerFile(arr, SortedAll(arr), o)
+FlushSorted == LET srt == SortedAll(arr) IN
+               \A L \in Limits : res[L].status = "ok" =>
+                   \A o \in Ords : PerFile(arr, res[L].out, o) = PerFile(arr, srt, o)
 NoRaise == \A L \in Limits : res[L].status = "ok"
 
 FlushOrderIndependentOfLimit == Evaluated => (Indep /\ FlushSorted)
@@ -93,9 +94,14 @@ RetrySucceeds == Evaluated => \A L \in Limits : (res[L].status = "ok" <=> ~Overs
 RetryAlwaysSucceeds == Evaluated => NoRaise
 
 View == <<arr, res>>
-Emit == PrintT(<<"T", ToJson([arr |-> arr, mono |-> Monotone(arr), indep |-> (Indep /\ FlushSorted)',
-                              out |-> [L \in Limits |-> res'[L].out],
-                              nb |-> [L \in Limits |-> Len(res'[L].batches)],
-                              bp |-> [L \in Limits |-> res'[L].bp],
-                              at |-> [L \in Limits |-> res'[L].at]])>>)
+\* compact emission (integers only): record = ((t*100+o)*10+s)*10+z; f = arrivals monotone within every file;
+\* o[L] = flush order as decimal digits; m[L] = at*100 + back-pressures*10 + batches (at = index of the record
+\* whose retry raised, 0 = run completed).  (Whether the outcome is limit-independent is recomputed from o by
+\* the harness: evaluating the primed invariant inside the emitter is slow.)
+RECURSIVE Digits(_)
+Digits(q) == IF q = <<>> THEN 0 ELSE Digits(SubSeq(q, 1, Len(q) - 1)) * 10 + q[Len(q)]
+Emit == PrintT(<<"T", ToJson([a |-> [i \in 1..Len(arr) |-> ((arr[i].t * 100 + arr[i].o) * 10 + arr[i].s) * 10 + arr[i].z],
+                              f |-> (IF Monotone(arr) THEN 1 ELSE 0),
+                              o |-> [L \in Limits |-> Digits(res'[L].out)],
+                              m |-> [L \in Limits |-> res'[L].at * 100 + res'[L].bp * 10 + Len(res'[L].batches)]])>>)
 =============================================================================
